@@ -174,10 +174,35 @@ def prepare_modfile(workdir):
     return mod
 
 
+def build_overlay(workdir, cmdname):
+    """Optional harness/cmd/<cmd>/overlay.json: {"<path below the repo>": "<stub file below harness/>"}.
+    Generated sources this checkout cannot produce offline (the dashboard's CSP constant) are supplied to
+    `go build -overlay` from the harness side.  An entry is used only while the repo lacks that file;
+    nothing is ever written into the repo."""
+    spec = os.path.join(HARNESS, "cmd", cmdname, "overlay.json")
+    if not os.path.exists(spec):
+        return None
+    with open(spec) as f:
+        entries = json.load(f)
+    repl = {}
+    for target, stub in entries.items():
+        dst = os.path.join(os.path.realpath(REPO), target)
+        if not os.path.exists(dst):
+            repl[dst] = os.path.join(HARNESS, stub)
+    if not repl:
+        return None
+    path = os.path.join(workdir, "overlay_%s.json" % cmdname)
+    write_json(path, {"Replace": repl})
+    return path
+
+
 def go_build(workdir, cmdname, race=False, tags="verif", timeout=900):
     mod = prepare_modfile(workdir)
     out_bin = os.path.join(workdir, "bin_" + cmdname + ("_race" if race else ""))
     cmd = ["go", "build", "-tags", tags, "-modfile=" + mod, "-o", out_bin]
+    overlay = build_overlay(workdir, cmdname)
+    if overlay:
+        cmd.append("-overlay=" + overlay)
     if race:
         cmd.append("-race")
     cmd.append("./cmd/" + cmdname)
